@@ -58,6 +58,17 @@ func (p *parser) parseStatement() ast.Statement {
 		p.comments.ResetLineBreak()
 	}
 
+	// The labels directly in front of this statement are its label set (ES5 12.12); when it is an
+	// iteration statement they may be named by a "continue" in its body.
+	pending := p.scope.pendingLabels
+	p.scope.pendingLabels = 0
+	if pending > 0 && (p.token == token.DO || p.token == token.WHILE || p.token == token.FOR) {
+		scope := p.scope
+		mark := len(scope.iterationLabels)
+		scope.iterationLabels = append(scope.iterationLabels, scope.labels[len(scope.labels)-pending:]...)
+		defer func() { scope.iterationLabels = scope.iterationLabels[:mark] }()
+	}
+
 	switch p.token {
 	case token.SEMICOLON:
 		return p.parseEmptyStatement()
@@ -121,6 +132,7 @@ func (p *parser) parseStatement() ast.Statement {
 			labelComments = p.comments.FetchAll()
 		}
 		p.scope.labels = append(p.scope.labels, label) // Push the label
+		p.scope.pendingLabels = pending + 1
 		statement := p.parseStatement()
 		p.scope.labels = p.scope.labels[:len(p.scope.labels)-1] // Pop the label
 		exp := &ast.LabelledStatement{
@@ -878,7 +890,7 @@ func (p *parser) parseContinueStatement() ast.Statement {
 			p.error(idx, "Undefined label '%s'", identifier.Name)
 			return &ast.BadStatement{From: idx, To: identifier.Idx1()}
 		}
-		if !p.scope.inIteration {
+		if !p.scope.inIteration || !p.scope.hasIterationLabel(identifier.Name) {
 			goto illegal
 		}
 		p.semicolon()
